@@ -31,18 +31,22 @@ def exec_null(job):
     from bct.utils import miscellaneous_utilities as mu
     fn = job["fn"]
     W = np.array(job["W"], dtype=float)
+    p2 = job.get("pow2")                     # exact power-of-two scaling of all weights (rewire_common)
+    scale = 2.0 ** p2 if p2 else 1.0
+    W = W * scale
     if job.get("dtype"):                     # signed integer types / Fortran order; values unchanged
         W = W.astype({"int": int}.get(job["dtype"], job["dtype"]))
     if job.get("layout") == "F":
         W = np.asfortranarray(W)
     n = len(W)
-    rec = dict(fn=fn, n=n, dir=int(fn == "null_model_dir_sign"), W=encode.mat_int(W), raised="",
-               malformed="", W0=[], corr=[], corr2=[], pattern=[])
+    rec = dict(fn=fn, n=n, dir=int(fn == "null_model_dir_sign"),
+               W=encode.mat_int(np.array(job["W"], dtype=float)), raised="",
+               malformed="", W0=[], corr=[], corr2=[], pattern=[], skip_corr=int(bool(p2) and p2 < 0))
     last = {}
 
     def sink(ev, f):
         if ev == "attempt" and f["acc"]:
-            last["R"] = np.array(f["R"], dtype=float)
+            last["R"] = np.array(f["R"], dtype=float) / scale
             last["fn"] = f["fn"]
 
     mu._verif_sinks.append(sink)
@@ -55,7 +59,7 @@ def exec_null(job):
     finally:
         mu._verif_sinks.remove(sink)
     try:
-        rec["W0"] = encode.mat_int(W0)
+        rec["W0"] = encode.mat_int(np.array(W0, dtype=float) / scale)
         rec["corr"] = [encode.e_q(x) for x in R]
         rec["corr2"] = [encode.e_q(float(x) ** 2) if np.isfinite(x) else encode.NAN for x in R]
         if "R" in last:
@@ -106,6 +110,11 @@ def run(ctx):
                          seed=rng.randrange(2 ** 31), src="random",
                          dtype=rng.choice([None, None, "int", "int32"]),
                          layout=rng.choice([None, None, "F", "view"])))
+        if rng.random() < 0.35:          # weight magnitudes: 256.. in narrow ints, 2**40.., 2**-560..
+            p2 = rng.choice([8, 8, 40, -560])
+            jobs[-1]["pow2"] = p2
+            jobs[-1]["dtype"] = rng.choice({8: [None, "int", "int32", "int16", "float32"], 40: [None, "int"],
+                                            -560: [None]}[p2])
     nr = len(jobs)
     for t in range(300 if ctx.quick else 5000):
         fn = ["null_model_und_sign", "null_model_dir_sign"][t % 2]
@@ -121,6 +130,10 @@ def run(ctx):
         jobs.append(dict(fn=fn, W=A.tolist(), bin_swaps=rng.choice([0, 1, 5]),
                          wei_freq=rng.choice([0, 0.1, 0.25, 0.5, 1]), seed=rng.randrange(2 ** 31), src="random",
                          dtype=rng.choice([None, None, "int", "int32"]), layout=rng.choice([None, None, "F"])))
+        if rng.random() < 0.35:
+            p2 = rng.choice([8, 8, 40, -560])
+            jobs[-1]["pow2"] = p2
+            jobs[-1]["dtype"] = rng.choice({8: [None, "int", "int32", "int16"], 40: [None, "int"], -560: [None]}[p2])
     recs = pool.run_jobs(__name__, jobs, limit=15.0)
     v1 = ctx.validate("Trace_Rewire.tla", "Trace_Rewire.cfg", recs[:nr], chunk=1500)
     v2 = ctx.validate("Trace_NullSign.tla", "Trace_NullSign.cfg", recs[nr:])
